@@ -757,6 +757,25 @@ def A6_rotation_gate(repo, clause):
                    "matches are reported without passing the rotation re-check" % chk, construct="if <re-check>: accepted.append(...)", slot="gated-append", positive=True)]
     if len(acc) != 1:
         raise AnalysisError("A6: expected one append gated by the rotation re-check, found %d" % len(acc))
+    # the re-check must be IMPLIED by the acceptance test: in `a or <re-check>` it is only one alternative - whenever `a` holds the candidate is accepted unchecked
+    if isinstance(gate, ast.BoolOp) and isinstance(gate.op, ast.Or):
+        others = [v for v in gate.values if not mentions_chk(v)]
+
+        def small_pattern_only(v):
+            try:
+                v = expand(fn, v)
+            except Exception:
+                pass
+            if isinstance(v, ast.Compare) and len(v.ops) == 1 and isinstance(v.left, ast.Call) and call_name(v.left) == "len" and isinstance(const_value(v.comparators[0]), int):
+                k_ = const_value(v.comparators[0])
+                return (isinstance(v.ops[0], ast.LtE) and k_ <= 2) or (isinstance(v.ops[0], ast.Lt) and k_ <= 3)
+            return False
+        free = [v for v in others if not small_pattern_only(v)]
+        if free:
+            obs.append(Ob("A6", clause, fn, gate, False,
+                          "the rotation re-check is only ONE ALTERNATIVE of the acceptance test `%s`: whenever `%s` holds, a candidate is accepted without being compared with the rotated pattern "
+                          "(a bent copy of a linear three-atom pattern, a mirror image, any candidate whose pair distances merely match)" % (ast.unparse(gate)[:90], ast.unparse(free[0])[:50]),
+                          slot="gate-not-implied", positive="robust"))
     G = acc[0].func.value.id
     inner = [a for a in fn.ancestors(acc[0]) if isinstance(a, ast.For)]
     if len(inner) < 2:
